@@ -65,7 +65,9 @@ def main(argv=None):
     with Scratch():
         cases = []
         if wl.get("shapes"):
-            cases += engine_b.shape_cases(seeds=(args.seed, args.seed + 1))
+            cases += engine_b.shape_cases(seeds=tuple(args.seed * 100 + i for i in range(8 if args.tier == "quick" else 60)),
+                                          cfgs=[{"njob": 2, "resources": "gpu:2"}, {"njob": 3, "resources": "gpu:2", "keep_going": True},
+                                                {"njob": 2, "resources": "gpu:1,tpu:1", "keep_going": True}, {"njob": 1}])
         if wl.get("gen"):
             cases += engine_b.gen_cases(args.seed, wl["gen"], features=wl.get("features"),
                                         watch_p=0.0)
